@@ -72,6 +72,11 @@ func ioFaults(r *Run) {
 	w := GenWorld(r, GenOpts{Par1: par1Set, MaxFiles: 5, SmallOnly: true, MaxR: 5, SliceSizes: []int{4, 8, 12, 16, 20, 64, 100, 256, 1024, 4096}})
 	sc := &ioScenario{w: w, index: w.Index, paths: w.FilePaths(), dc: t.Bool(1, 2, "dc"), g: []int{1, 2, 4}[t.Draw(3, "g")]}
 	sc.op = []string{"create", "verify", "repair"}[t.Pick([]int{2, 2, 5}, "op")]
+	if !par1Set && sc.op != "create" && t.Bool(1, 25, "many-volume-files") {
+		// enough recovery blocks for six or seven volume files
+		w.R = 31 + t.Draw(70, "many-R")
+		r.Probe("set-with-many-volume-files")
+	}
 	if !par1Set && t.Bool(1, 100, "megabytes-of-recovery-data") {
 		// a Create that writes several MiB of recovery data (writers tend
 		// to buffer, batch or chunk their output above some size)
